@@ -59,7 +59,7 @@ Inductive gv :=
 (* ---- schema types (the fragment bindnode binds) ---------------------------------------- *)
 
 Inductive srepr := SRMap | SRTuple.
-Inductive urepr := URKeyed | URKinded.
+Inductive urepr := URKeyed | URKinded | URStringprefix.   (* stringprefix: with the empty delimiter (all the schema DSL produces) *)
 Inductive erepr := ERString | ERInt.
 
 (* struct field: name, representation key (rename; = name when not renamed), type, optional, nullable.
